@@ -38,7 +38,7 @@ def run_one(m, run_tests, tier):
             t = subprocess.run(["/venv/bin/python", "-m", "pytest", "-q", "-x", "-p", "no:cacheprovider", "--timeout=300"], cwd=dst,
                                capture_output=True, text=True)
             res["tests"] = "pass" if t.returncode == 0 else "FAIL(" + t.stdout.strip().splitlines()[-1][:60] + ")"
-        env = dict(os.environ, VF_REPO=dst)
+        env = dict(os.environ, VF_REPO=dst, VF_EVIDENCE_DIR=os.path.join(d, "evidence"))
         props = m["property"] if isinstance(m["property"], list) else [m["property"]]
         for prop in props:
             c = subprocess.run([os.path.join(ROOT, "check"), prop, tier], cwd=ROOT, capture_output=True, text=True, env=env)
